@@ -13,6 +13,34 @@ func concStr(v Value) string {
 	}
 	return s.S
 }
+// concStrFork makes a string concrete by forking over the feasible values of its symbolic bytes.
+// If charset != "" the bytes are first split on "all inside charset"; outside, ok=false is returned
+// with the string still symbolic (callers return their error result).
+func (e *Engine) concStrFork(v Value, charset string) (string, bool) {
+	s := v.(Str)
+	if s.isC() {
+		return s.S, true
+	}
+	if charset != "" {
+		all := tTrue
+		for i := 0; i < s.Len(); i++ {
+			if b := s.byteAt(i); b.T != nil {
+				all = mkAnd(all, inSet(b.T, charset))
+			}
+		}
+		if !e.Branch(all) {
+			return "", false
+		}
+	}
+	bs := make([]byte, s.Len())
+	for i := range bs {
+		bs[i] = byte(e.Concretize(s.byteAt(i)))
+	}
+	return string(bs), true
+}
+
+const floatChars = "0123456789+-.eExXpP_infINFatyATY"
+
 func concI(e *Engine, v Value) int64 {
 	i := v.(Int)
 	if i.T != nil {
@@ -54,21 +82,26 @@ func init() {
 		return Str{S: strconv.FormatFloat(a[0].(Float).V, byte(concI(e, a[1])), int(concI(e, a[2])), int(concI(e, a[3])))}
 	}
 	intrinsics["strconv.ParseFloat"] = func(e *Engine, a []Value) Value {
-		f, err := strconv.ParseFloat(concStr(a[0]), int(concI(e, a[1])))
+		str, ok := e.concStrFork(a[0], floatChars)
+		if !ok {
+			return Tuple{Float{0}, e.mkError("strconv.ParseFloat: parsing <symbolic>: invalid syntax")}
+		}
+		f, err := strconv.ParseFloat(str, int(concI(e, a[1])))
 		if err != nil {
 			return Tuple{Float{f}, e.mkError(err.Error())}
 		}
 		return Tuple{Float{f}, Iface{}}
 	}
-	intrinsics["strconv.Atoi"] = func(e *Engine, a []Value) Value {
-		i, err := strconv.Atoi(concStr(a[0]))
-		if err != nil {
-			return Tuple{mkInt(64, uint64(i)), e.mkError(err.Error())}
+	intrinsics["strconv.Itoa"] = func(e *Engine, a []Value) Value {
+		if i := a[0].(Int); i.T != nil {
+			return e.formatIntSym(i)
 		}
-		return Tuple{mkInt(64, uint64(i)), Iface{}}
+		return Str{S: strconv.Itoa(int(concI(e, a[0])))}
 	}
-	intrinsics["strconv.Itoa"] = func(e *Engine, a []Value) Value { return Str{S: strconv.Itoa(int(concI(e, a[0])))} }
 	intrinsics["strconv.FormatInt"] = func(e *Engine, a []Value) Value {
+		if i := a[0].(Int); i.T != nil && concI(e, a[1]) == 10 {
+			return e.formatIntSym(i)
+		}
 		return Str{S: strconv.FormatInt(concI(e, a[0]), int(concI(e, a[1])))}
 	}
 	intrinsics["strconv.FormatBool"] = func(e *Engine, a []Value) Value {
@@ -82,4 +115,48 @@ func init() {
 		return Str{S: strconv.FormatBool(b.V)}
 	}
 	intrinsics["strconv.Quote"] = func(e *Engine, a []Value) Value { return Str{S: strconv.Quote(concStr(a[0]))} }
+}
+
+// formatIntSym: decimal formatting of a symbolic signed 64-bit integer. The sign and the number of
+// digits are decided by the solver (forks); the digits themselves are terms.
+func (e *Engine) formatIntSym(i Int) Value {
+	t := i.T
+	if i.W < 64 {
+		t = mkSext(64, t)
+	}
+	neg := e.Branch(mk("bvslt", 0, t, bvConst(64, 0)))
+	abs := t
+	if neg {
+		abs = mk("bvneg", 64, t) // MinInt64 maps to itself: treated as unsigned below, which is correct
+	}
+	nd := 1
+	p := uint64(10)
+	for nd < 20 {
+		if e.Branch(mk("bvult", 0, abs, bvConst(64, p))) {
+			break
+		}
+		nd++
+		if nd == 20 {
+			break
+		}
+		p *= 10
+	}
+	bs := make([]Int, 0, nd+1)
+	if neg {
+		bs = append(bs, mkInt(8, '-'))
+	}
+	div := uint64(1)
+	for k := 1; k < nd; k++ {
+		div *= 10
+	}
+	for k := 0; k < nd; k++ {
+		q := abs
+		if div > 1 {
+			q = mk("bvudiv", 64, abs, bvConst(64, div))
+		}
+		d := mk("bvurem", 64, q, bvConst(64, 10))
+		bs = append(bs, fromTermI(mk("bvadd", 8, mkExtract(7, 0, d), bvConst(8, '0'))))
+		div /= 10
+	}
+	return strFromBytes(bs)
 }
